@@ -163,6 +163,7 @@ class Engine:
                 st[(frame, i)] = ("param", i)
         paths = []
         self._exec(item, frame, 0, st, [], paths, depth=0, loops=())
+        canon_counters(paths)
         return paths
 
     def _new_frame(self):
@@ -1354,3 +1355,107 @@ def subst(t, mapping):
     if not isinstance(t, tuple):
         return t
     return tuple(subst(x, mapping) if isinstance(x, tuple) else x for x in t)
+
+
+RANGE_NEXT = "std::iter::range::<impl std::iter::Iterator for std::ops::Range<A>>::next"
+
+
+def _lt_guard(atom, val, c):
+    """(N, is_body) when the condition (atom, val) is a comparison equivalent to `c < N` (is_body True) or to its negation"""
+    if atom[0] != "b" or not isinstance(val, bool) or not isinstance(atom[1], tuple) or not atom[1]:
+        return None
+    t = atom[1]
+    if t[0] == "bin" and t[1] in ("Lt", "Le", "Gt", "Ge"):
+        op, x, y = t[1], t[2], t[3]
+    elif t[0] == "cmp" and t[1] in ("lt", "le", "gt", "ge"):
+        op, x, y = t[1].capitalize(), t[2], t[3]
+    else:
+        return None
+    if x == c and op in ("Lt", "Ge"):
+        return (y, (op == "Lt") == val)
+    if y == c and op in ("Gt", "Le"):
+        return (x, (op == "Gt") == val)
+    return None
+
+
+def canon_counters(paths):
+    """A counted loop spelled with an explicit counter (`let mut i = a; while i < n { ..; i += 1; }`, or `loop { if i >= n { break; }
+    ..; i += 1; }`) is rewritten, in the paths through its body, into the terms `for i in a..n` produces: the counter becomes the item
+    of a `Range { start: a, end: n }` iterator. Conditions: the counter advances by exactly 1 on every back edge; the first event
+    of every iteration that mentions it is the guard `i < n` (any spelling); n does not depend on loop-carried state. Inside the
+    body a <= i < n then holds exactly as for the range loop; paths that leave the loop through the guard keep the plain counter."""
+    by_phi = {}
+    for p in paths:
+        for k, e in enumerate(p.trace):
+            if e[0] == "phis":
+                for cell, phi in e[3]:
+                    if isinstance(phi, tuple) and phi and phi[0] == "phi":
+                        by_phi.setdefault((cell, phi), []).append((p, k))
+    for (cell, c), occ in by_phi.items():
+        header = c[2]
+        one_more = ("bin", "Add", c, None)
+        N = None
+        ok = True
+        nback = 0
+        body = []
+        for p, k in occ:
+            guard = None
+            for e in p.trace[k + 1:]:
+                if e[0] in ("loop", "phis"):
+                    if e[2] == header:
+                        continue
+                if contains(e, c):
+                    if e[0] == "cond":
+                        guard = _lt_guard(e[1], e[2], c)
+                    break
+            if guard is None:
+                # the counter is not mentioned on this path after the loop entry: only acceptable when the path does not reach the back edge
+                if p.kind == "backedge" and p.loop == header:
+                    ok = False
+                    break
+                continue
+            n_, is_body = guard
+            if N is None:
+                N = n_
+            if n_ != N or any(x[0] == "phi" and x[2] == header and x[1] == c[1] for x in subterms(("t", n_))):
+                ok = False
+                break
+            if p.kind == "backedge" and p.loop == header:
+                nv = p.store.get(cell)
+                if not (is_body and isinstance(nv, tuple) and len(nv) == 4 and nv[:3] == one_more[:3] and cint(nv[3]) == 1):
+                    ok = False
+                    break
+                nback += 1
+            if is_body:
+                body.append((p, k))
+        if not ok or not nback or N is None:
+            continue
+        it = ("phi", c[1], header, c[3] + "#range", ("adt", "std::ops::Range", "Range", ("start", "end"), (c[4], N)))
+        nxt = ("call", RANGE_NEXT, (it,))
+        item = ("unwrap", nxt)
+        m = {c: item}
+        for p, k in body:
+            e = p.trace[k]
+            site = None
+            for x in p.trace[k + 1:]:
+                if x[0] == "cond":
+                    site = x[3]
+                    break
+            new = list(p.trace[:k])
+            new.append((e[0], e[1], e[2], tuple((cl, (it if ph == c else ph)) for cl, ph in e[3])))
+            first = True
+            for x in p.trace[k + 1:]:
+                if first and contains(x, c):
+                    # the guard `i < n` itself becomes the `Some` arm of the iterator's `next()`
+                    first = False
+                    new.append(("call", RANGE_NEXT, (it,), site, "std::iter::Iterator::next", (0,)))
+                    new.append(("cond", ("ok", nxt), True, site))
+                    continue
+                new.append(subst(x, m) if contains(x, c) else x)
+            p.trace[:] = new
+            for key in list(p.store.keys()):
+                v = p.store[key]
+                if isinstance(v, tuple) and contains(v, c):
+                    p.store[key] = subst(v, m)
+            if isinstance(p.ret, tuple) and contains(p.ret, c):
+                p.ret = subst(p.ret, m)
